@@ -82,6 +82,7 @@ impl Preferences{
         prefs.insert("UEB_START_MODE".to_string(), Yaml::String("Grade2".to_string()));
         prefs.insert("DecimalSeparators".to_string(), Yaml::String(".".to_string()));
         prefs.insert("BlockSeparators".to_string(), Yaml::String(", \u{00A0}\u{202F}".to_string()));
+        prefs.insert("DecimalSeparator".to_string(), Yaml::String("Auto".to_string()));   // set_string_pref() needs it even if prefs.yaml lacks it
     
         return Preferences{ prefs };
     }
@@ -196,6 +197,18 @@ impl Preferences{
     }
 }
 
+
+/// Returns the string form of a (scalar) preference value.
+/// A prefs.yaml file can have a number or a boolean where a string is expected (e.g., `Language: 7`), so `as_str().unwrap()` can't be used.
+fn pref_value_to_string(value: &Yaml) -> String {
+    return match value {
+        Yaml::String(s) => s.clone(),
+        Yaml::Boolean(b)   => b.to_string(),
+        Yaml::Integer(i)    => i.to_string(),
+        Yaml::Real(s) => s.clone(),
+        _  => NO_PREFERENCE.to_string(),       // shouldn't happen
+    }
+}
 
 thread_local!{
     static DEFAULT_USER_PREFERENCES: Preferences = Preferences::user_defaults();
@@ -351,9 +364,8 @@ impl PreferenceManager {
         self.user_prefs = prefs;
 
         // set computed values for BLOCK_SEPARATORS and DECIMAL_SEPARATORS (a little messy about the language due immutable and mutable borrows)
-        let language = self.user_prefs.prefs.get("Language").unwrap_or(&DEFAULT_LANG).clone();
-        let language = language.as_str().unwrap();
-        self.set_separators(language)?;
+        let language = pref_value_to_string(self.user_prefs.prefs.get("Language").unwrap_or(&DEFAULT_LANG));
+        self.set_separators(&language)?;
         
         return Ok( () );
     }
@@ -425,13 +437,13 @@ impl PreferenceManager {
         let new_language = new_prefs.prefs.get("Language").unwrap();
         if old_language != new_language {
             let language_dir = self.rules_dir.to_path_buf().join("Languages");
-            self.set_speech_files(&language_dir, new_language.as_str().unwrap(), None)?;  // also sets style file
+            self.set_speech_files(&language_dir, &pref_value_to_string(new_language), None)?;  // also sets style file
         } else {
             let old_speech_style = self.user_prefs.prefs.get("SpeechStyle").unwrap();
             let new_speech_style = new_prefs.prefs.get("SpeechStyle").unwrap();
             let language_dir = self.rules_dir.to_path_buf().join("Languages");
             if old_speech_style != new_speech_style {
-                self.set_speech_files(&language_dir, new_language.as_str().unwrap(), new_speech_style.as_str())?;
+                self.set_speech_files(&language_dir, &pref_value_to_string(new_language), Some(&pref_value_to_string(new_speech_style)))?;
             }
         }
 
@@ -439,7 +451,7 @@ impl PreferenceManager {
         let new_braille_code = new_prefs.prefs.get("BrailleCode").unwrap();
         if old_braille_code != new_braille_code {
             let braille_code_dir = self.rules_dir.to_path_buf().join("Braille");
-            self.set_braille_files(&braille_code_dir, new_braille_code.as_str().unwrap())?;  // also sets style file
+            self.set_braille_files(&braille_code_dir, &pref_value_to_string(new_braille_code))?;  // also sets style file
         }
 
         return Ok( () );
@@ -707,17 +719,18 @@ impl PreferenceManager {
         // debug!("Setting ({}) {} to '{}'", if is_user_pref {"user"} else {"sys"}, key, value);
         if is_user_pref {
             // a little messy about the DecimalSeparator due immutable and mutable borrows
-            let current_decimal_separator = self.user_prefs.prefs.get("DecimalSeparator").unwrap().clone();
-            let current_decimal_separator = current_decimal_separator.as_str().unwrap();
+            let current_decimal_separator = match self.user_prefs.prefs.get("DecimalSeparator") {
+                Some(value) => pref_value_to_string(value),
+                None => "Auto".to_string(),
+            };
             let is_decimal_separators_changed = key == "DecimalSeparator" && current_decimal_separator != value;
-            let is_language_changed = key == "Language" && self.user_prefs.prefs.get("Language").unwrap().as_str().unwrap() != value;
+            let is_language_changed = key == "Language" &&
+                    pref_value_to_string(self.user_prefs.prefs.get("Language").unwrap_or(&DEFAULT_LANG)) != value;
             self.user_prefs.prefs.insert(key.to_string(), Yaml::String(value.to_string()));
             // a language change matters even when the decimal separator is given: the country can add a block separator (see set_separators)
             if is_decimal_separators_changed || is_language_changed {
-                // a little messy about the language due immutable and mutable borrows)
-                let language = self.user_prefs.prefs.get("Language").unwrap_or(&DEFAULT_LANG).clone();
-                let language = language.as_str().unwrap();
-                self.set_separators(language)?;
+                let language = pref_value_to_string(self.user_prefs.prefs.get("Language").unwrap_or(&DEFAULT_LANG));
+                self.set_separators(&language)?;
             }
         } else {
             self.api_prefs.prefs.insert(key.to_string(), Yaml::String(value.to_string()));
@@ -806,13 +819,7 @@ impl PreferenceManager {
         }
         return match value {
             None => NO_PREFERENCE.to_string(),
-            Some(v) => match v {
-                Yaml::String(s) => s.clone(),
-                Yaml::Boolean(b)   => b.to_string(),
-                Yaml::Integer(i)    => i.to_string(),
-                Yaml::Real(s) => s.clone(),
-                _  => NO_PREFERENCE.to_string(),       // shouldn't happen
-            }
+            Some(v) => pref_value_to_string(v),
         }
     }
 
